@@ -29,6 +29,8 @@ func init() {
 		if g := loadGrammars(r, prog); g != nil {
 			r.importing = "C15"
 			checkBinaryActions(r, NewGA(prog, g.Tab), "c15") // the node evaluated has the two operands that were written
+			r.importing = "C16"
+			checkExposure(r, NewGA(prog, g.Tab)) // … grouped as written: the operand of `not` is what follows it, not the conjunction it stands in
 			r.importing = ""
 		}
 		r.Technique = "abstract interpretation of the SSA of the expression dispatcher over the outcome domain {true,false,error}×{true,false,error} (path-sensitive, helpers inlined to depth 3), compared with the 3×3 table transcribed from the statement"
